@@ -312,7 +312,28 @@ def monC19 (h : Hist) : Option String :=
       | some ks => (ks.find? fun k => k.contains '#' && !ks.contains (k.takeWhile (· ≠ '#'))).map fun k =>
           s!"at rest the store holds the entry {shw k} but no index for its resource: an invalidated key was written back"
       | none => none
-     else none) ]
+     else none),
+    -- no garbage: in a sequential history without store faults every entry the store holds at rest is referenced by the
+    -- index of its resource. An entry that nothing refers to can never be read, replaced or invalidated again; a
+    -- resource whose replies keep changing what they vary on would leave one behind per request (one URI, one request
+    -- header combination, a number of keys that grows with the number of requests). Histories with overlapping
+    -- exchanges are left out (the recorded lost-update family), as are identifier collisions (recorded) and store faults.
+    (if !h.faults.isEmpty || h.concurrent || h.cls == "collide" || h.cls == "concurrent" || h.cls == "inval-race" ||
+        h.cls == "reval-race" || h.cls == "swr" || h.cls == "swr-inval" || (h.reqs.any fun ri => !(h.calls ri.n "bg").isEmpty) then none else
+      -- (the memory backend cannot list its keys: there the key set is the one the recorded writes and deletes leave)
+      match (some (h.finalKeys.getD keys) : Option (List Str)) with
+      | none => none
+      | some ks =>
+        -- the index of a resource as last written
+        let idxOf (k : Str) : List Str := (h.evs.foldl (fun acc ev => match ev with
+          | .store s => if s.key ≠ k then acc else
+              (match s.op, s.result, s.val with
+               | "set", "ok", .idx refs _ => some (refs.map (·.id))
+               | "del", "ok", _ => none
+               | _, _, _ => acc)
+          | _ => acc) none).getD []
+        (ks.find? fun k => k.contains '#' && !(idxOf (k.takeWhile (· ≠ '#'))).contains k).map fun k =>
+          s!"at rest the store holds the entry {shw k}, which the index of its resource does not reference: a replaced response was left behind") ]
 
 def monitorFor2 (prop : String) : Hist → Option String :=
   match prop with
